@@ -132,6 +132,10 @@ def get_atomic_sequence(xsd_type: Optional[XsdTypeProtocol],
             return value.fromstring(s)
         elif isinstance(value, bool):
             return dt.BooleanProxy(s)  # bool('false') is True
+        elif isinstance(value, Decimal):
+            return dt.DecimalProxy(s)  # Decimal() accepts also 'inf', 'nan', '1e5'
+        elif type(value) is float:
+            return dt.DoubleProxy(s)  # float() accepts also 'inf', 'nan', 'infinity'
         elif not isinstance(value, dt.AbstractQName):
             return value.__class__(s)
         else:
